@@ -7,7 +7,7 @@ from . import common
 from .common import viol
 
 ID = "C16"
-RUNS = {"quick": 1000, "thorough": 12000}
+RUNS = {"quick": 1000, "thorough": 8000}
 REAL = common.REAL
 SIMULATED = common.SIMULATED
 ASSUMPTIONS = [
